@@ -39,7 +39,8 @@ theorem freeConnOf_facts (w : W) (o : Oid) (id client : Nat) (inv : Inv w) (hio 
       · omega
     -- the state before the (invariant-neutral) shutdown flag
     let text := match findConn w id with | some c => c.out | none => ""
-    let w1 : W := setInter { w with users := some (freeSlot l id), outs := (client, text) :: w.outs } o none
+    let w1 : W := setInter { w with users := some (freeSlot l id), outs := (client, text) :: w.outs,
+                                     masterRef := if o = .master then w.masterRef - 1 else w.masterRef } o none
     have hf : ∀ id', id' ≠ id → findConn w1 id' = findConn w id' := by
       intro id' hne
       show findIn (freeSlot l id) id' = findIn (slots w) id'
